@@ -1014,6 +1014,7 @@ impl<
         publish_subscribe::PortFactory<ServiceType, [Payload], UserHeader>,
         PublishSubscribeOpenOrCreateError,
     > {
+        self.adjust_configuration_to_meaningful_values();
         self.prepare_config_details();
         self.open_or_create_impl(attributes)
     }
@@ -1059,6 +1060,7 @@ impl<
         publish_subscribe::PortFactory<ServiceType, [Payload], UserHeader>,
         PublishSubscribeCreateError,
     > {
+        self.adjust_configuration_to_meaningful_values();
         self.prepare_config_details();
         self.create_impl(attributes)
     }
